@@ -16,12 +16,13 @@ mkdir -p "$wt/$(dirname "$rel")"
 cp "$src/demo_test.go" "$wt/$rel"
 pkg=./$(dirname "$rel")
 # exactly the tests of the demonstration file
+race=""; case "$id" in C06*) race="-race";; esac   # concurrency seeds: the demonstration may need the race detector
 tests="^($(grep -oE '^func (Test[A-Za-z0-9_]+)' "$src/demo_test.go" | awk '{print $2}' | paste -sd'|'))\$"
 echo "demo at $rel (package $pkg) tests $tests"
-(cd "$wt" && go test -vet=off -count=1 -run "$tests" "$pkg" > /tmp/conf-$id-before.log 2>&1); rc_before=$?
+(cd "$wt" && go test $race -vet=off -count=1 -run "$tests" "$pkg" > /tmp/conf-$id-before.log 2>&1); rc_before=$?
 git -C "$wt" apply "$src/patch.diff" || { echo "REJECTED $id: patch does not apply"; exit 1; }
 (cd "$wt" && go build ./... > /tmp/conf-$id-build.log 2>&1) || { echo "REJECTED $id: does not compile"; exit 1; }
-(cd "$wt" && go test -vet=off -count=1 -run "$tests" "$pkg" > /tmp/conf-$id-after.log 2>&1); rc_after=$?
+(cd "$wt" && go test $race -vet=off -count=1 -run "$tests" "$pkg" > /tmp/conf-$id-after.log 2>&1); rc_after=$?
 rm -f "$wt/$rel"
 (cd "$wt" && go test -vet=off -count=1 ./... > /tmp/conf-$id-suite.log 2>&1)
 # packages that failed (other than internal/auditlog, whose two init tests fail on the unmodified tree) are
